@@ -124,7 +124,22 @@ func VP_C03_CommitWaitsForBlock() {
 		}
 		vp.Assert(cs.Step == cstypes.RoundStepCommit && cs.CommitRound == 0 && cs.ProposalBlock == nil, "C03.T5.the-decision-is-seen-without-its-block")
 		// ... and, late, what the others sent while they were still trying round 1
-		switch late = vp.Choice("late-messages-of-the-next-round", 4); late {
+		switch late = vp.Choice("late-messages-of-the-next-round", 5); late {
+		case 4:
+			// the (faulty, or simply uninformed) proposer of the node's round proposes another block X
+			other, otherParts := state.MakeBlock(vpH, []types.Tx{{0x43}}, types.NewCommit(0, 0, types.BlockID{}, nil), nil, state.Validators.GetProposer().Address)
+			p := types.NewProposal(vpH, cs.Round, -1, types.BlockID{Hash: other.Hash(), PartSetHeader: otherParts.Header()})
+			for _, k := range keys {
+				if string(k.PubKey().Address()) == string(cs.Validators.GetProposer().Address) {
+					pp := p.ToProto()
+					sig, err := k.Sign(types.ProposalSignBytes(vpStepChain, pp))
+					if err != nil {
+						panic(err)
+					}
+					p.Signature = sig
+				}
+			}
+			cs.handleMsg(msgInfo{Msg: &ProposalMessage{Proposal: p}, PeerID: "peer"})
 		case 1:
 			for i := 1; i <= 3; i++ {
 				vote(i, tmproto.PrevoteType, 1, id)
@@ -157,7 +172,7 @@ func VP_C03_CommitWaitsForBlock() {
 			}
 		}
 	}()
-	what := []string{"nothing-else-arrived-before", "after-late-round-1-prevotes-for-the-block", "after-late-round-1-prevotes-for-nil", "after-late-round-1-precommits-for-nil"}[late]
+	what := []string{"nothing-else-arrived-before", "after-late-round-1-prevotes-for-the-block", "after-late-round-1-prevotes-for-nil", "after-late-round-1-precommits-for-nil", "after-a-proposal-for-another-block"}[late]
 	vp.Assert(decided, "C03.T5.node-that-saw-the-decision-decides-once-the-block-arrives/"+what)
 }
 
